@@ -1,6 +1,8 @@
 import Afkak.Monitor.C17
 import AfkakProofs.Group.Trace
 import AfkakProofs.Group.Retry
+import AfkakProofs.Group.Fresh
+import AfkakProofs.Group.Fatal
 import AfkakProps.Open.C17
 /-!
 # C17 — a started group member always progresses toward stable membership
@@ -84,6 +86,20 @@ theorem C17_forgotten_member_resets (stopping : Bool) (e : GErr) (h : forgetsMem
     (rejoinRow stopping e).clearMember = true ∧ (rejoinRow stopping e).act ≠ .ignore :=
   Afkak.Group.Tables.forgets_clears stopping e h
 
+/-- A non-Kafka error on a join / sync / heartbeat reply or from a consumer always surfaces (monitor
+    `fatalSurfaces` on every model trace): processed in a started, not stopping member it fires
+    `start`'s Deferred with that error in the same step, or sends the leave request and the step that
+    delivers the leave reply fires it with that error.  (The other half of full strength — errors
+    escaping the join — is violated by the code: `C17_fatal_surfaces_counterexample`.) -/
+theorem C17_fatal_surfaces_on_replies (cfg : Cfg) (evs : List Ev) : fatalSurfaces (toMSteps (run cfg evs)) = true :=
+  fatalSurfaces_run cfg evs
+
+/-- After a processed UnknownMemberId / InvalidGroupId eviction every JoinGroup observed before the
+    next processed successful join reply quotes the EMPTY member id (monitor `freshAfterEviction` on
+    every model trace), so a coordinator that forgot the member lets it back in. -/
+theorem C17_fresh_after_eviction (cfg : Cfg) (evs : List Ev) : freshAfterEviction (toMSteps (run cfg evs)) = true :=
+  freshAfterEviction_run cfg evs
+
 /-! Non-vacuity: an event list with failures at several steps of the join protocol that satisfies
 the hypothesis, on which the member is NOT trivially idle-free (it goes through retry timers). -/
 def exFaults : List Ev :=
@@ -103,11 +119,11 @@ C17_stable_heartbeat
 C17_retriable_table
 C17_fatal_table
 C17_forgotten_member_resets
+C17_fatal_surfaces_on_replies
+C17_fresh_after_eviction
 -/
 /- OPEN_STATEMENTS
 C17_never_idle
 C17_fatal_surfaces
-C17_fatal_surfaces_on_replies
 C17_rejoins_bounded
-C17_fresh_after_eviction
 -/
